@@ -55,6 +55,17 @@ CLAIMS = {
         note=TRUST + "combine's easy_parse and parse are assumed to accept the same language.",
         technique="structural diff of type-checked bodies across cfg expansions",
         design="5/C20"),
+    "C03": dict(
+        category="translation_validation",
+        text="Per-opcode template validation at byte level: for every opcode and (dst, src) register pair the bytes the code "
+             "generator emits are derived by symbolic evaluation of its arm down to the emit macro (imm/off stay symbolic), decoded by "
+             "an independent x86-64 decoder (REX, ModRM, disp8/disp32, literal jcc displacements) and interpreted over a symbolic "
+             "machine state; effect on eBPF registers (via REGISTER_MAP), stores, branch condition and target must equal the "
+             "interpreter's summary. quick: 15 register pairs per opcode (1650 templates); thorough: all 121 pairs (13310). F01 known.",
+        note=TRUST + "x86model.py (decoder + semantics from the Intel SDM) is the oracle; in-bounds accesses assumed (no JIT checks by "
+             "design); A-size for legacy-load displacements; call/exit/prologue are decided under C07/C08/C09.",
+        technique="symbolic byte-template extraction from THIR + reference x86 decoder/interpreter, compared with interpreter terms",
+        design="5/C03"),
     "C05": dict(
         category="proof",
         text="Assume-guarantee closure: every panic-capable site reachable from the interpreter entry (MIR asserts, unwrap/index/"
